@@ -51,6 +51,9 @@ def build_trace(tier):
         cs = [(c4, c4 / 4.0) for c4 in (range(0, 5) if a != "CondEvap" else [0])]     # condensing / evaporating: c = 0 by definition
         if a != "CondEvap":
             cs += [(-1, round(rnd.uniform(0.01, 0.999), 4)) for _ in range(n_off)]
+            # capacity ratios that are positive but vanishing (a phase change entered with a huge finite CP): still inside [0, 1], and equal
+            # to the c = 0 limit to far below every tolerance used here, so they are judged as lattice value c4 = 0
+            cs += [(0, 1e-17), (0, 1e-9)]
         for c4, c in cs:
             for P in passes:
                 if c4 < 0:      # off-lattice NTU as well: an increasing random sequence in (0, 10]
@@ -84,7 +87,7 @@ def build_trace(tier):
     # relational clauses only (range, monotone in NTU, not above counter flow, label-form independence), capacity ratios > 0
     for rows_ in (1, 2, 3, 4, 6):
         for phase in ("Air", "Steam"):
-            for c4 in (1, 2, 3, 4):
+            for c4 in (0, 1, 2, 3, 4):        # c = 0 included: HX_Eff's stated domain does not depend on the optional arguments
                 c = c4 / 4.0
                 member = HX.CrFUU
                 effM, effT, cf, err = [], [], [], None
@@ -100,10 +103,31 @@ def build_trace(tier):
                     for lst, v in ((effM, em), (effT, et), (cf, cfv)):
                         lst.append(int(round(v * M)) if math.isfinite(v) else -9 * M)
                 z = [0] * len(n4s)
-                series.append(dict(id=f"CrFUU|rows={rows_}|{phase}|c={c}", arr="CrFUU", c4=-1, c=c, passes=1, n4=z, ntuM=[int(round(n4 / 4.0 * M)) for n4 in n4s],
+                series.append(dict(id=f"CrFUU|rows={rows_}|{phase}|c={c}", arr="CrFUU", c4=(0 if c4 == 0 else -1), c=c, passes=1, n4=(list(n4s) if c4 == 0 else z), ntuM=[int(round(n4 / 4.0 * M)) for n4 in n4s],
                                    err=err or "", effM=effM, effT=effT, backM=z, backT=z, cf=cf, reach=[False] * len(n4s), effBack=z, rows=rows_))
     lm = []
     ds = [-5, 0, 1, 2, 3, 5, 8, 13, 20, 21, 34, 50]
+    # sequence forms (the signature is float | list | ndarray for either argument; capital_cost_and_area_targeting passes arrays):
+    # the column of all positive differences against d1 -- tied and untied pairs in one call (seed C20e) -- as lists, as arrays, and
+    # with d1 as a bare scalar on either side
+    import numpy as _np
+    pos = [d for d in ds if d > 0]
+    forms = {}
+    for d1 in pos:
+        col = [d2 / 10.0 for d2 in pos]
+        calls = (lambda: compute_LMTD_from_dts([d1 / 10.0] * len(pos), col),
+                 lambda: compute_LMTD_from_dts(_np.array([d1 / 10.0] * len(pos)), _np.array(col)),
+                 lambda: compute_LMTD_from_dts(d1 / 10.0, _np.array(col)),
+                 lambda: compute_LMTD_from_dts(col, d1 / 10.0))
+        for k, f_ in enumerate(calls):
+            try:
+                vals = [int(round(float(v) * 100)) for v in _np.asarray(f_(), dtype=float).ravel()]
+                if len(vals) != len(pos):
+                    vals = [-777] * len(pos)
+            except Exception:
+                vals = [-777] * len(pos)
+            for d2, v in zip(pos, vals):
+                forms.setdefault((d1, d2), []).append(v)
     for d1 in ds:
         for d2 in ds:
             refused = False
@@ -119,7 +143,7 @@ def build_trace(tier):
                 Lt = int(round(float(compute_LMTD_from_ts(100.0, 100.0 - x, 100.0 - x - d2 / 10.0, 100.0 - d1 / 10.0)) * 100))
             except ValueError:
                 Lt = -1
-            lm.append(dict(id=f"lmtd|{d1}|{d2}", d1=d1, d2=d2, L=L, Lswap=Ls, Lts=Lt, refused=refused, fine=False))
+            lm.append(dict(id=f"lmtd|{d1}|{d2}", d1=d1, d2=d2, L=L, Lswap=Ls, Lts=Lt, refused=refused, fine=False, Lforms=forms.get((d1, d2), [])))
     # nearly equal pairs at 1e-6 K resolution (cancellation in (d1 - d2)/ln(d1/d2)); d in micro-kelvin
     base = [1_000_000, 2_500_000, 10_000_000, 20_000_000]
     gaps = [0, 1, 2, 5, 11, 40, 101, 230, 1000, 5003] + ([rnd.randrange(1, 20000) for _ in range(10)] if tier == "thorough" else [])
@@ -128,7 +152,7 @@ def build_trace(tier):
             d1, d2 = b, b + g
             L = int(round(float(compute_LMTD_from_dts(d1 / 1e6, d2 / 1e6)) * 1e6))
             Ls = int(round(float(compute_LMTD_from_dts(d2 / 1e6, d1 / 1e6)) * 1e6))
-            lm.append(dict(id=f"lmtdfine|{d1}|{d2}", d1=d1, d2=d2, L=L, Lswap=Ls, Lts=L, refused=False, fine=True))
+            lm.append(dict(id=f"lmtdfine|{d1}|{d2}", d1=d1, d2=d2, L=L, Lswap=Ls, Lts=L, refused=False, fine=True, Lforms=[]))
     E = [int(round(10000 * math.exp(-k / 16.0))) for k in range(0, 8 * 40 + 2)]
     return dict(E=E, series=series, lmtd=lm)
 
